@@ -1934,9 +1934,12 @@ Proof.
   intros Sh NS Hh Hp F. unfold TI.follow in *.
   apply andb_true_iff in F. destruct F as [F1 F2]. rewrite <- Hp, F2, andb_true_r.
   unfold TI.followc in *. rewrite <- Hh.
-  destruct (tcat t) eqn:K; try exact F1.
+  destruct (tc_beq (tcat t) TCommandName) eqn:K.
+  2:{ destruct (tcat t); cbn in K; first [discriminate K | exact F1]. }
+  apply tc_eqb_eq in K. rewrite K in F1 |- *.
   apply andb_true_iff in F1. destruct F1 as [A _]. rewrite A. cbn [andb].
-  unfold nosize in NS. rewrite K in NS. cbn [tc_beq negb orb] in NS.
+  unfold nosize in NS. rewrite K in NS.
+  change (tc_beq TCommandName TCommandName) with true in NS. cbn [negb orb] in NS.
   apply negb_true_iff in NS.
   assert (A' : TI.nc_not TI.ls_c (hd_error (TI.texts nxt')) = true) by (rewrite <- Hh; exact A).
   pose proof (TI.cmd_not_sizing_ok t (TI.texts nxt') Sh K A' NS) as L.
